@@ -340,6 +340,13 @@ def judge_c08(d):
     return None
 
 
+def judge_c09(d):
+    q, impl, model = d["query"], d["impl"], d["model"]
+    if "panic" in impl or impl == "hang":
+        return "a parser of untrusted input panicked / hung on this byte string"
+    return None
+
+
 PROPS = {
     "C03": dict(
         suites=["c03"],
@@ -515,5 +522,24 @@ PROPS = {
                  "(exercised on every prefix through the 1-cut and byte-wise runs)",
                  "tokio mpsc/Notify/select! semantics in the listen loop; download relaying ends when the client closes (by design)"],
         assumptions=["head.length <= 1024 for the invariance theorem: longer heads may be rejected depending on segmentation"],
+    ),
+    "C09": dict(
+        suites=["c09"],
+        judge=judge_c09,
+        level="proof",
+        exhaustive=True,
+        rule="every string of length <= 4 (thorough <= 5) over the alphabet {00,01,02,3a,3c,40,45,60,ff}, alone and appended to valid "
+             "prefixes (length field, fixed header, complete record; ICMP type + quoted IPv4/IPv6 header with a hop-by-hop chain; TLS "
+             "record/handshake/ClientHello prefixes; SOCKS5 selection/reply prefixes), presented to: the UDP stream decoder (two "
+             "segmentations), the ICMP request decoder, skip_ipv4/ipv6_header, ICMP v4/v6 deserialize + responded_echo_request, "
+             "extract_client_random, the SOCKS5 dialogue; random fragment soups as rules and credentials files through the real loader; "
+             "all under catch_unwind, all answers also compared with the Lean models",
+        explanation="theorems udp_stream_no_panic, udp_step_safe, icmp_request_decoder_safe, ip_header_skipping_safe, icmp_packets_safe, "
+                    "client_hello_prebuffer_bounded, h1_head_bounded_and_progress, socks_udp_datagram_safe, socks_truncated_reply_is_error, "
+                    "rules_malformed_safe (TT/Props/C09.lean, built on the C04/C06/C08/C11/C12/C15 theorems)",
+        trusted=["third-party parsers run as black boxes under catch_unwind only: httparse, tls-parser, toml_edit, ipnet, hex, base64",
+                 "the origin-response parser of http_forwarded_stream.rs is covered by C17, not here",
+                 "arithmetic overflow: models use unbounded naturals except where the code's width matters (u8 header length, u32 checksum sum: proved not to wrap)"],
+        assumptions=[],
     ),
 }
